@@ -83,7 +83,10 @@ func (e *ContainerEdits) Apply(spec *oci.Spec) error {
 	}
 
 	for _, d := range e.DeviceNodes {
-		dn := DeviceNode{d}
+		// fill in missing host information in a copy: the edits usually
+		// belong to a cached Spec, which must not change by being applied
+		node := *d
+		dn := DeviceNode{&node}
 
 		err := dn.fillMissingInfo()
 		if err != nil {
